@@ -31,6 +31,15 @@
 (* data and index arithmetic.  The deviation switch "IndexShift" makes the *)
 (* leader read the signature domains 0..N-2 as the code does               *)
 (* (notary.go:390-391) instead of 1..N-1.                                  *)
+(*                                                                         *)
+(* Lossy delivery: Lose(t) / LoseReq(r) / LoseSign(j,r) drop a submitted   *)
+(* transaction, notary request or co-signature before it has any effect    *)
+(* (at most MaxLoss times, no fairness: finitely many losses).  The        *)
+(* procedure is designed to re-send: the transactionGroupMonitor of the    *)
+(* stage is reset when the tracked transactions pass their ValidUntilBlock *)
+(* unconfirmed (util.go:178-184), so here a lost submission is simply no   *)
+(* longer pending.  The deviation switch "StickyPending" describes a       *)
+(* monitor that stays pending after such an expiry.                        *)
 (***************************************************************************)
 EXTENDS Integers, Sequences, FiniteSets, TLC, DeployProps
 
@@ -42,7 +51,8 @@ CONSTANTS
   Absent,     \* members that start only after the Notary role is designated
   MaxRerun,   \* number of re-runs on the finished chain explored
   LastStage,  \* the run is cut after this many stages (0 = the whole procedure); 2 = NNS and Notary bootstrap only
-  Dev         \* deviation switches: subset of {"IndexShift"}
+  MaxLoss,    \* number of submissions that are accepted by the node's front end but never reach the pool
+  Dev         \* deviation switches: subset of {"IndexShift", "StickyPending"}
 
 Members   == 0..(N - 1)
 Leader    == 0
